@@ -1078,9 +1078,9 @@ def is_blocking(node: ast.AST, parent_type: ast.AST = None) -> bool:
     if isinstance(node, ast.For):
         try:
             iterator = literal_value(node.iter)
-        except ValueError:
-            return False
-        if not any(True for _ in iterator):
+            if not any(True for _ in iterator):
+                return False
+        except (ValueError, TypeError):  # TypeError if the value is not iterable
             return False
 
     if isinstance(node, (ast.For, ast.While)):
